@@ -76,7 +76,11 @@ class CHECK(Check):
             "observation with an isolated replay of its own operations. (b) for the three families: File() == File.read(''), two "
             "File() are independent, File().write gives ''. non-trivial = >= 2 objects of the same class were operated on; "
             "distinct = hash"
-            " Later additions: date fields with ambiguous or head-sharing format lists, a no-op storage setter after every list mutation with every Line's field values observed, elements moved between files, two files emptied completely (oracle only).")
+            " Later additions: date fields with ambiguous or head-sharing format lists, a no-op storage setter after every list mutation with every Line's field values observed, elements moved between files, two files emptied completely (oracle only). "
+            "Class hierarchies: a register class may derive from an earlier register class of the case and declare its own LINE (parent/child, "
+            "siblings, chains of three; 1-3 classes), so that registers of *related* classes are read and written in every order - every interleaving "
+            "of length<=3 over a 6-operation alphabet on a parent and a child register (both orientations of the two layouts, complete) plus the "
+            "random interleavings; such cases count as non-trivial when two registers of related classes were operated on.")
 
     def gen(self, tier, rng):
         import itertools
@@ -91,10 +95,23 @@ class CHECK(Check):
         for n in range(1, 4):
             for combo in itertools.product(alpha, repeat=n):
                 yield {"kind": "graph", "lines": [fs], "ops": [[0, 0], [0, 0]] + [list(o) for o in combo]}
+        # complete: one register of a parent class and one of a class derived from it that declares its own layout
+        # (a shorter and a longer one, both orientations), 6-op alphabet, length <= 3
+        fa = [{"k": "int", "size": 3, "start": 0}]
+        fb = [{"k": "int", "size": 3, "start": 0}, {"k": "lit", "size": 3, "start": 3}, {"k": "int", "size": 2, "start": 6}]
+        ta, tb = [" 12\n", " 34\n"], ["  7abc 5\n", "  9xyz 1\n"]
+        for hl, ht in (([fa, fb], [ta, tb]), ([fb, fa], [tb, ta])):
+            alpha = [[1, 0, ht[0][0]], [1, 1, ht[1][0]], [2, 0], [2, 1], [4, 1, 0, ["int", 99]], [3, 1, ht[1][1]]]
+            for n in range(1, 4):
+                for combo in itertools.product(alpha, repeat=n):
+                    yield {"kind": "graph", "lines": hl, "bases": [None, 0], "ops": [[0, 0], [0, 1]] + [list(o) for o in combo]}
         nr = 1500 if tier == "quick" else 30000
         for _ in range(nr):
-            nl = rng.randint(1, 2)
+            k = rng.random()
+            nl = 1 if k < 0.45 else 2 if k < 0.88 else 3
             lines = [gen_line(rng) for _ in range(nl)]
+            # class i derives from Register or from an earlier class of the case (and declares its own LINE)
+            bases = [None] + [(rng.randrange(i) if rng.random() < 0.5 else None) for i in range(1, nl)]
             delims = [(";" if rng.random() < 0.3 else None) for _ in range(nl)]
             gt = lambda ln: gen_text_delim(rng, lines[ln]) if delims[ln] else gen_text(rng, lines[ln])
             ops = []
@@ -143,7 +160,7 @@ class CHECK(Check):
                     ops.append([9, rng.randrange(nfiles)])
                 else:
                     ops.append([10, rng.randrange(nfiles), rng.randrange(nfiles)])
-            yield {"kind": "graph", "lines": lines, "delims": delims, "ops": ops}
+            yield {"kind": "graph", "lines": lines, "delims": delims, "bases": bases, "ops": ops}
 
     # ---------------------------------------------------------------- implementation
     def run_graph(self, case):
@@ -154,8 +171,12 @@ class CHECK(Check):
         delims = case.get("delims") or [None] * len(case["lines"])
         line_objs = [Line([fl.mk_field(fd) for fd in fs], delimiter=d) for fs, d in zip(case["lines"], delims)]
         reg_delim = []
-        classes = [type("W%d" % i, (Register,), {"IDENTIFIER": "", "IDENTIFIER_DIGITS": 0, "LINE": lo, "__slots__": []})
-                   for i, lo in enumerate(line_objs)]
+        bases = case.get("bases") or [None] * len(line_objs)
+        classes = []
+        for i, lo in enumerate(line_objs):
+            # a class derives from Register or from an earlier class of the case; every class declares its own LINE
+            base = Register if bases[i] is None else classes[bases[i]]
+            classes.append(type("W%d" % i, (base,), {"IDENTIFIER": "", "IDENTIFIER_DIGITS": 0, "LINE": lo, "__slots__": []}))
         FC = type("WFile", (RegisterFile,), {"REGISTERS": [], "__slots__": []})
         regs, results, files = [], [], []
         list_objs = []        # user-visible handles, in allocation order
@@ -511,18 +532,36 @@ class CHECK(Check):
                 sub.append(op if op[0] in (6, 7) else [op[0], 0])
         if not sub:
             return None, None
-        return {"kind": "graph", "lines": case["lines"], "delims": case.get("delims"), "ops": sub}, None
+        return {"kind": "graph", "lines": case["lines"], "delims": case.get("delims"), "bases": case.get("bases"), "ops": sub}, None
 
     def nontrivial(self, case, obs):
         if case["kind"] in ("fresh", "emptied"):
             return True
         lines = [op[1] for op in case["ops"] if op[0] == 0]
-        return len(lines) != len(set(lines)) and any(op[0] in (1, 4, 5) for op in case["ops"])
+        return (len(lines) != len(set(lines)) or self.related_used(case)) and any(op[0] in (1, 4, 5) for op in case["ops"])
+
+    @staticmethod
+    def related_used(case):
+        """registers of two classes, one derived (directly or not) from the other, were both read or written"""
+        bases = case.get("bases") or []
+        cls_of = [op[1] for op in case["ops"] if op[0] == 0]
+        used = {cls_of[op[1]] for op in case["ops"] if op[0] in (1, 2)}
+        for c in used:
+            a = bases[c] if c < len(bases) else None
+            while a is not None:
+                if a in used:
+                    return True
+                a = bases[a]
+        return False
 
     def classify(self, case):
         if case["kind"] in ("fresh", "emptied"):
             return {case["kind"] + "_" + case["fam"]: 1}
         d = {"ops_%02d" % len(case["ops"]): 1, "lines_%d" % len(case["lines"]): 1}
+        if any(b is not None for b in case.get("bases") or []):
+            d["derived_classes_%d" % sum(b is not None for b in case["bases"])] = 1
+            if self.related_used(case):
+                d["related_classes_both_used"] = 1
         for op in case["ops"]:
             d["op_%d" % op[0]] = d.get("op_%d" % op[0], 0) + 1
         return d
